@@ -376,7 +376,17 @@ func SeqSub(s, lo, hi *Term) *Term {
 	return SeqTake(SeqDrop(s, lo), Sub(hi, lo))
 }
 
-func SeqUpd(s, i, v *Term) *Term { return App("upd."+s.Sort.Name, s.Sort, s, i, v) }
+func SeqUpd(s, i, v *Term) *Term {
+	// an update of a literal at a literal index is a literal (composite literals are built this way)
+	if es, ok := litElems(s); ok && i.Int != nil && i.Int.IsInt64() {
+		if k := i.Int.Int64(); k >= 0 && int(k) < len(es) {
+			ne := append([]*Term{}, es...)
+			ne[k] = v
+			return SeqLit(s.Sort, ne...)
+		}
+	}
+	return App("upd."+s.Sort.Name, s.Sort, s, i, v)
+}
 
 // SeqLit is a literal sequence (string constants, composite literals).
 func SeqLit(s *Sort, elems ...*Term) *Term {
